@@ -519,7 +519,56 @@ func c07NamedNumbers(cfg Config, res *Result) {
 	}
 }
 
+// c07Edges: divisors that are zero only as integers, powers beyond the range of int, and operator
+// expressions as items of a list literal
+func c07Edges(cfg Config, res *Result) {
+	ct := CtxTerm{Names: []string{"n", "q", "h", "x"}, Vals: []VT{vInt(7), vFloat(0.25), vFloat(0.5), vInt(3)}}
+	var cases []ProgCase
+	wants := map[string]string{}
+	add := func(src, want string) {
+		c := ct
+		pc := ProgCase{Src: src, Ctx: &c, Label: "edges"}
+		cases = append(cases, pc)
+		wants[pc.Req()] = want
+	}
+	ok := func(s string) string { return "ok " + hxb(s) }
+	for _, d := range []string{"0.5", "0.25", "q", "h", "(1 / 2.0)", "0.999", "(0 - 0.5)"} {
+		add("{{ 7 % "+d+" }}", "err exec") // integer modulo: the divisor truncates to 0
+		add("{{ n % "+d+" }}", "err exec")
+		add("{% if 7 % "+d+" %}y{% endif %}", "err exec")
+	}
+	add("{{ 7 / 0.5 }}", ok("14.000000"))
+	add("{{ 7 / q }}", ok("28.000000"))
+	add("{{ 7 % 2.5 }}", ok("1"))
+	add("{{ 7 / 0 }}", "err exec")
+	add("{{ 7 / 0.0 }}", "err exec")
+	add("{{ 7 % 0 }}", "err exec")
+	for _, c := range [][3]string{{"2", "62", ""}, {"2", "63", ""}, {"2", "64", ""}, {"10", "18", ""}, {"10", "19", ""}, {"10", "20", ""}, {"7", "30", ""}, {"3", "40", ""}, {"x", "41", ""}, {"(3*7)", "(3*7)", ""}} {
+		var b, e float64
+		fmt.Sscan(strings.Trim(strings.ReplaceAll(strings.ReplaceAll(c[0], "x", "3"), "3*7", "21"), "()"), &b)
+		fmt.Sscan(strings.Trim(strings.ReplaceAll(c[1], "3*7", "21"), "()"), &e)
+		add("{{ "+c[0]+" ^ "+c[1]+" }}", ok(fmt.Sprintf("%f", math.Pow(b, e))))
+	}
+	add("{% if 10 ^ 19 > 10 ^ 18 %}y{% else %}n{% endif %}", ok("y"))
+	add("{% if 2 ^ 64 %}y{% else %}n{% endif %}", ok("y"))
+	add("{{ 2 in [1+1] }}", ok("True"))
+	add("{{ 2 in [1, 1+1] }}", ok("True"))
+	add("{{ 3 in [1+1] }}", ok("False"))
+	add(`{{ [1+1, -2, x*2]|join:"," }}`, ok("2,-2,6"))
+	add("{{ true in [1 < 2] }}", ok("True"))
+	add("{% for v in [x+1, x-1] %}{{ v }};{% endfor %}", ok("4;2;"))
+	runProgCases(cfg, res, cases, "c07e", func(c ProgCase, o ImplOutcome) bool { return true },
+		func(c ProgCase, o ImplOutcome) *Finding {
+			want := wants[c.Req()]
+			if o.Canon() != want {
+				return &Finding{Kind: "oracle", Proj: "semantics", Sig: "c07-edge", Case: c.String(), Impl: o.Canon() + " " + o.Msg, Model: want}
+			}
+			return nil
+		})
+}
+
 func suiteC07(cfg Config, res *Result) {
+	defer c07Edges(cfg, res)
 	defer c07Membership(cfg, res)
 	defer c07NamedNumbers(cfg, res)
 	res.Rule = "expression trees over the leaves {0,1,2,7,-3,2.5,\"a\",\"\",true,false,x:int,y:float,s:string} and 15 binary + 2 unary operators: all trees of depth <= 2 (exhaustive), every ordered pair of binary operators in both groupings over numeric leaf triples, plus random trees up to depth 5 (quick) / 8 (thorough); each tree inside the uncontroversial fragment (decided by the independent evaluator) is printed with minimal parentheses, random spacing and operator spellings, rendered through {{ e }} and {% if e %}, and compared with the independent evaluator and with the Lean model; non-trivial = >= 2 operators; distinct by printed source"
